@@ -64,7 +64,11 @@ func (x *Exec) prelude() {
 		body = fmt.Sprintf("(ite (= i %d) %s %s)", i, pow2(i), body)
 	}
 	S.raw("(define-fun pow2 ((i Int)) Int " + body + ")")
-	S.raw("(define-fun bitat ((x Int) (i Int)) Int (mod (div x (pow2 i)) 2))")
+	bt := "0"
+	for i := 63; i >= 0; i-- {
+		bt = fmt.Sprintf("(ite (= i %d) (mod (div x %s) 2) %s)", i, pow2(i), bt)
+	}
+	S.raw("(define-fun bitat ((x Int) (i Int)) Int " + bt + ")")
 	for _, w := range []int{8, 16, 32, 64} {
 		for _, op := range []string{"and", "or", "xor"} {
 			var terms []string
@@ -224,8 +228,46 @@ func (x *Exec) wrap64(t types.Type, term string) string {
 	return sx("-", sx("mod", sx("+", term, pow2(63)), pow2(64)), pow2(63))
 }
 
+// oneShl recognises the operand `1 << s`.
+func oneShl(v ssa.Value) (ssa.Value, bool) {
+	if c, ok := v.(*ssa.Convert); ok {
+		v = c.X
+	}
+	b, ok := v.(*ssa.BinOp)
+	if !ok || b.Op != token.SHL {
+		return nil, false
+	}
+	if k, ok := constIntOf(b.X); ok && k == 1 {
+		return b.Y, true
+	}
+	return nil, false
+}
+
 func (x *Exec) bitop(i *ssa.BinOp, A, B string, bits int) string {
 	signed := !isUnsigned(i.Type())
+	// single-bit masks: x & (1<<s), x | (1<<s), x &^ (1<<s) on unsigned operands
+	if !signed && x.curFrame != nil {
+		for _, sw := range []bool{false, true} {
+			xv, mv, xt := i.X, i.Y, A
+			if sw {
+				xv, mv, xt = i.Y, i.X, B
+			}
+			_ = xv
+			if sv, ok := oneShl(mv); ok && (!sw || i.Op != token.AND_NOT) {
+				sh := x.val(x.curFrame, sv)[0].T
+				inRange := and(sx("<=", "0", sh), sx("<", sh, itoa(int64(bits))))
+				bitv := sx("bitat", xt, sh)
+				switch i.Op {
+				case token.AND:
+					return ite(inRange, ite(eq(bitv, "1"), sx("pow2", sh), "0"), "0")
+				case token.OR:
+					return ite(inRange, ite(eq(bitv, "1"), xt, sx("+", xt, sx("pow2", sh))), xt)
+				case token.AND_NOT:
+					return ite(inRange, ite(eq(bitv, "1"), sx("-", xt, sx("pow2", sh)), xt), xt)
+				}
+			}
+		}
+	}
 	// masks of the form 2^k-1
 	if i.Op == token.AND {
 		if k, ok := constIntOf(i.Y); ok {
@@ -297,6 +339,15 @@ func (x *Exec) valEq(fr *frame, X, Y ssa.Value, a, b Val) string {
 			return eq(a[0].T, "0")
 		}
 		return eq(b[0].T, "0")
+	}
+	switch t.Underlying().(type) {
+	case *types.Pointer, *types.Map, *types.Chan, *types.Signature:
+		if c, ok := Y.(*ssa.Const); ok && c.Value == nil {
+			return eq(a[0].T, "0")
+		}
+		if c, ok := X.(*ssa.Const); ok && c.Value == nil {
+			return eq(b[0].T, "0")
+		}
 	}
 	if types.IsInterface(t) {
 		// comparison with nil: type id only
